@@ -114,7 +114,27 @@ fn same_shape(t: &mut Tape) -> Program {
 }
 
 fn gen_one(t: &mut Tape) -> Case {
-    match t.weighted(&[50, 11, 11, 10, 8, 4, 6]) {
+    match t.weighted(&[50, 11, 11, 10, 8, 4, 6, 3]) {
+        7 => {
+            // a long song: 48-150 verses (top-level blocks), each a small lint or grammar program; anything that treats
+            // big programs differently (work split up, tables that grow, shortcuts) must still give the same answer every time
+            let verse = if t.chance(3, 5) {
+                render_canonical(&engine_core::gen::lintprog::LintGen::new(t).program())
+            } else {
+                render_canonical(&engine_core::gen::syntax::SynGen::new(t, engine_core::gen::syntax::SynCfg { max_block_len: 3, ..engine_core::gen::syntax::SynCfg::default() }).program())
+            };
+            let second = render_canonical(&engine_core::gen::lintprog::LintGen::new(t).program());
+            let n = 48 + t.pick(103);
+            let mut src = String::new();
+            for i in 0..n {
+                src.push_str(if i % 5 == 4 { &second } else { &verse });
+                if !src.ends_with('\n') {
+                    src.push('\n');
+                }
+                src.push('\n');
+            }
+            Case::One { src, stdin: String::new(), dict_keys: 0 }
+        }
         6 => Case::One { src: render_canonical(&same_shape(t)), stdin: String::new(), dict_keys: 0 },
         4 => {
             // grammar programs: every statement kind at every depth (poetic literals inside loops, branches and functions):
